@@ -1,1 +1,1559 @@
-//! E-MOCK: in-process scripted CQL v4 nodes on loopback with explorer-controlled gates (DESIGN.md 1.2, Appendix A).
+//! E-MOCK: in-process scripted CQL v4 nodes on loopback with explorer-controlled gates
+//! (DESIGN.md 1.2, Appendix A). See README.md for the API tour and a worked example.
+//!
+//! * `MockCluster::builder().node(NodeSpec{..}).keyspace(..).build().await` binds one listener per node
+//!   (same port number on distinct loopback addresses of this process's private 127.<16+slot>.x.y block,
+//!   plus a shard-aware port for Scylla nodes) and serves a real `scylla` Session.
+//! * every parsed frame / sent response / open / close / pushed event is appended to one ordered LOG;
+//!   `wait_*` helpers block on *conditions* over that log (never on sleeps).
+//! * per-test `Handler`s and `Script`s answer user statements; unknown statements get a server error and
+//!   are listed by `unexpected()`.
+//! * GATES: `hold(pred)` parks every matching server-side action (accepting a connection, any response)
+//!   until the test calls `release(id)`; closes/resets and event pushes are initiated by the test itself.
+//! * per connection the mock tracks the keyspace it has *acknowledged* (SetKeyspace response written).
+
+pub mod systables;
+pub mod wire;
+
+use bytes::BytesMut;
+use std::collections::{BTreeMap, HashMap};
+use std::net::{IpAddr, Ipv4Addr, SocketAddr};
+use std::sync::atomic::{AtomicU32, Ordering};
+use std::sync::{Arc, Mutex};
+use std::time::Duration;
+use tokio::io::{AsyncReadExt, AsyncWriteExt};
+use tokio::net::{TcpListener, TcpStream};
+use tokio::sync::{Notify, mpsc, oneshot};
+use tokio::time::Instant;
+use uuid::Uuid;
+use wire::{ColSpec, Envelope, ErrorBody, Event, Opcode, ParseCtx, PreparedResult, Request, Response, RowsMetadata};
+
+pub const DEFAULT_PORT: u16 = 9042;
+pub const SHARD_AWARE_PORT_OFFSET: u16 = 10000;
+/// Generous liveness deadline for `wait_*` helpers (correct code needs milliseconds).
+pub const DEADLINE: Duration = Duration::from_secs(20);
+
+// ------------------------------------------------------------------------------------------------
+// loopback address allocation
+// ------------------------------------------------------------------------------------------------
+
+static NEXT_HOST: AtomicU32 = AtomicU32::new(0);
+
+/// Second octet offset of this process's loopback block: `VERIF_MOCK_SLOT` if set, else pid-derived.
+pub fn loopback_slot() -> u8 {
+    let raw = std::env::var("VERIF_MOCK_SLOT").ok().and_then(|s| s.parse::<u32>().ok()).unwrap_or_else(std::process::id);
+    (raw % 224) as u8
+}
+
+/// Next unused address of this process's block 127.<16+slot>.x.y (y in 1..=254).
+pub fn alloc_ip() -> Ipv4Addr {
+    let n = NEXT_HOST.fetch_add(1, Ordering::Relaxed) % (256 * 254);
+    Ipv4Addr::new(127, 16 + loopback_slot(), (n / 254) as u8, (n % 254 + 1) as u8)
+}
+
+// ------------------------------------------------------------------------------------------------
+// specifications
+// ------------------------------------------------------------------------------------------------
+
+#[derive(Clone, Copy, Debug, PartialEq, Eq)]
+pub enum PlainPortShard {
+    /// connections on the plain port get shards 0,1,2,.. in order of arrival (per node)
+    RoundRobin,
+    Fixed(u16),
+}
+
+#[derive(Clone, Debug)]
+pub struct NodeSpec {
+    /// None = take the next address of this process's loopback block
+    pub addr: Option<Ipv4Addr>,
+    pub dc: String,
+    pub rack: String,
+    pub tokens: Vec<i64>,
+    /// Some((nr_shards, msb_ignore)) = ScyllaDB node; None = Cassandra-like node
+    pub shards: Option<(u16, u8)>,
+    pub host_id: Option<Uuid>,
+    /// listen on and advertise the shard-aware port (Scylla nodes only)
+    pub shard_aware_port: bool,
+    pub plain_port_shard: PlainPortShard,
+    /// advertise TABLETS_ROUTING_V1
+    pub tablets_v1: bool,
+    /// advertise SCYLLA_USE_METADATA_ID
+    pub metadata_id: bool,
+    /// advertise SCYLLA_LWT_ADD_METADATA_MARK with this mask
+    pub lwt_mark: Option<u32>,
+    /// advertise SCYLLA_RATE_LIMIT_ERROR with this error code
+    pub rate_limit_error: Option<i32>,
+    /// answer STARTUP with AUTHENTICATE(<class>) and any AUTH_RESPONSE with AUTH_SUCCESS
+    pub authenticator: Option<String>,
+    /// listed in system.local / system.peers of the other nodes
+    pub in_ring: bool,
+    /// serve `host_id = null` for this node in system tables
+    pub null_host_id: bool,
+    /// start listening at build time
+    pub listening: bool,
+    pub extra_supported: Vec<(String, Vec<String>)>,
+}
+impl NodeSpec {
+    pub fn new(dc: &str, rack: &str, tokens: Vec<i64>) -> NodeSpec {
+        NodeSpec {
+            addr: None,
+            dc: dc.into(),
+            rack: rack.into(),
+            tokens,
+            shards: None,
+            host_id: None,
+            shard_aware_port: true,
+            plain_port_shard: PlainPortShard::RoundRobin,
+            tablets_v1: false,
+            metadata_id: false,
+            lwt_mark: None,
+            rate_limit_error: None,
+            authenticator: None,
+            in_ring: true,
+            null_host_id: false,
+            listening: true,
+            extra_supported: Vec::new(),
+        }
+    }
+    pub fn scylla(mut self, nr_shards: u16, msb_ignore: u8) -> NodeSpec {
+        self.shards = Some((nr_shards, msb_ignore));
+        self
+    }
+    pub fn addr(mut self, a: Ipv4Addr) -> NodeSpec {
+        self.addr = Some(a);
+        self
+    }
+    pub fn host_id(mut self, u: Uuid) -> NodeSpec {
+        self.host_id = Some(u);
+        self
+    }
+    pub fn tablets(mut self) -> NodeSpec {
+        self.tablets_v1 = true;
+        self
+    }
+}
+
+#[derive(Clone, Debug)]
+pub struct ColumnSpec {
+    pub name: String,
+    /// partition_key | clustering | regular | static
+    pub kind: String,
+    pub position: i32,
+    /// CQL type name as in system_schema.columns.type (`int`, `text`, `list<int>`, ..)
+    pub typ: String,
+}
+#[derive(Clone, Debug)]
+pub struct TableSpec {
+    pub name: String,
+    pub columns: Vec<ColumnSpec>,
+    /// system_schema.scylla_tables.partitioner (None = null = default Murmur3)
+    pub partitioner: Option<String>,
+}
+impl TableSpec {
+    pub fn new(name: &str) -> TableSpec {
+        TableSpec { name: name.into(), columns: Vec::new(), partitioner: None }
+    }
+    pub fn pk(mut self, name: &str, typ: &str) -> TableSpec {
+        let position = self.columns.iter().filter(|c| c.kind == "partition_key").count() as i32;
+        self.columns.push(ColumnSpec { name: name.into(), kind: "partition_key".into(), position, typ: typ.into() });
+        self
+    }
+    pub fn ck(mut self, name: &str, typ: &str) -> TableSpec {
+        let position = self.columns.iter().filter(|c| c.kind == "clustering").count() as i32;
+        self.columns.push(ColumnSpec { name: name.into(), kind: "clustering".into(), position, typ: typ.into() });
+        self
+    }
+    pub fn col(mut self, name: &str, typ: &str) -> TableSpec {
+        self.columns.push(ColumnSpec { name: name.into(), kind: "regular".into(), position: -1, typ: typ.into() });
+        self
+    }
+}
+#[derive(Clone, Debug)]
+pub struct KeyspaceSpec {
+    pub name: String,
+    pub replication: Vec<(String, String)>,
+    pub durable_writes: bool,
+    pub tables: Vec<TableSpec>,
+    /// system_schema.scylla_keyspaces.initial_tablets (Some = tablet keyspace)
+    pub initial_tablets: Option<i32>,
+}
+impl KeyspaceSpec {
+    pub fn simple(name: &str, rf: usize) -> KeyspaceSpec {
+        KeyspaceSpec {
+            name: name.into(),
+            replication: vec![("class".into(), "org.apache.cassandra.locator.SimpleStrategy".into()), ("replication_factor".into(), rf.to_string())],
+            durable_writes: true,
+            tables: Vec::new(),
+            initial_tablets: None,
+        }
+    }
+    pub fn nts(name: &str, dcs: &[(&str, usize)]) -> KeyspaceSpec {
+        let mut replication = vec![("class".to_string(), "org.apache.cassandra.locator.NetworkTopologyStrategy".to_string())];
+        for (dc, rf) in dcs {
+            replication.push((dc.to_string(), rf.to_string()));
+        }
+        KeyspaceSpec { name: name.into(), replication, durable_writes: true, tables: Vec::new(), initial_tablets: None }
+    }
+    pub fn table(mut self, t: TableSpec) -> KeyspaceSpec {
+        self.tables.push(t);
+        self
+    }
+    pub fn tablets(mut self, initial: i32) -> KeyspaceSpec {
+        self.initial_tablets = Some(initial);
+        self
+    }
+}
+
+/// What system tables show about a node.
+#[derive(Clone, Debug)]
+pub struct NodeView {
+    pub index: usize,
+    pub ip: Ipv4Addr,
+    pub host_id: Uuid,
+    pub dc: String,
+    pub rack: String,
+    pub tokens: Vec<i64>,
+    pub in_ring: bool,
+    pub null_host_id: bool,
+}
+
+// ------------------------------------------------------------------------------------------------
+// log
+// ------------------------------------------------------------------------------------------------
+
+#[derive(Clone, Copy, Debug, PartialEq, Eq)]
+pub enum CloseKind {
+    /// orderly close (FIN)
+    Fin,
+    /// SO_LINGER 0 + close (RST)
+    Rst,
+}
+#[derive(Clone, Copy, Debug, PartialEq, Eq)]
+pub enum ClosedBy {
+    Client,
+    ReadError,
+    Server(CloseKind),
+}
+
+#[derive(Clone, Debug)]
+pub struct FrameInfo {
+    pub stream: i16,
+    pub opcode: Opcode,
+    pub flags: u8,
+    pub request: Request,
+    /// raw body bytes as received (for an independent parser)
+    pub body: Vec<u8>,
+    /// keyspace this connection had ACKNOWLEDGED (SetKeyspace response written) when the frame arrived
+    pub keyspace: Option<String>,
+    /// QUERY/PREPARE text, or the text the node knows for an EXECUTE's prepared id
+    pub statement: Option<String>,
+    /// the connection had REGISTERed for events when the frame arrived (control connection)
+    pub control: bool,
+}
+#[derive(Clone, Debug)]
+pub enum LogKind {
+    Open { peer: SocketAddr, shard_port: bool },
+    Frame(FrameInfo),
+    Sent { stream: i16, request_seq: Option<u64>, response: Arc<Envelope> },
+    Closed { by: ClosedBy },
+    EventPushed { event: Event },
+}
+#[derive(Clone, Debug)]
+pub struct LogEntry {
+    /// logical sequence number: position in the cluster-wide log
+    pub seq: u64,
+    pub node: usize,
+    pub conn: u64,
+    /// server-side shard of the connection (Scylla nodes)
+    pub shard: Option<u16>,
+    pub kind: LogKind,
+}
+impl LogEntry {
+    pub fn frame(&self) -> Option<&FrameInfo> {
+        match &self.kind {
+            LogKind::Frame(f) => Some(f),
+            _ => None,
+        }
+    }
+    pub fn opcode(&self) -> Option<Opcode> {
+        self.frame().map(|f| f.opcode)
+    }
+    pub fn statement(&self) -> Option<&str> {
+        self.frame().and_then(|f| f.statement.as_deref())
+    }
+    /// frame whose statement text starts with `prefix` (QUERY, PREPARE or EXECUTE of a known id)
+    pub fn is_stmt(&self, prefix: &str) -> bool {
+        self.statement().map(|s| s.starts_with(prefix)).unwrap_or(false)
+    }
+    /// a frame that is not part of handshake / keepalive / metadata reading / USE
+    pub fn is_user_frame(&self) -> bool {
+        match self.frame() {
+            None => false,
+            Some(f) => match f.opcode {
+                Opcode::Query | Opcode::Prepare | Opcode::Execute => match &f.statement {
+                    Some(s) => systables::parse_select(s).is_none() && !is_use(s),
+                    None => true,
+                },
+                Opcode::Batch => true,
+                _ => false,
+            },
+        }
+    }
+    pub fn describe(&self) -> String {
+        let head = format!("#{:<4} n{} c{:<3} s{:<2}", self.seq, self.node, self.conn, self.shard.map(|s| s.to_string()).unwrap_or_else(|| "-".into()));
+        match &self.kind {
+            LogKind::Open { peer, shard_port } => format!("{head} OPEN from {peer}{}", if *shard_port { " (shard-aware port)" } else { "" }),
+            LogKind::Frame(f) => format!(
+                "{head} <- [{}] {}{}{}",
+                f.stream,
+                f.opcode.name(),
+                f.statement.as_ref().map(|s| format!(" {s:?}")).unwrap_or_default(),
+                f.keyspace.as_ref().map(|k| format!(" (ks={k})")).unwrap_or_default()
+            ),
+            LogKind::Sent { stream, response, .. } => format!("{head} -> [{}] {}", stream, response.response.summary()),
+            LogKind::Closed { by } => format!("{head} CLOSED by {by:?}"),
+            LogKind::EventPushed { event } => format!("{head} => EVENT {event:?}"),
+        }
+    }
+}
+
+pub fn is_use(stmt: &str) -> bool {
+    let t = stmt.trim_start();
+    t.len() >= 4 && t[..4].eq_ignore_ascii_case("USE ")
+}
+
+// ------------------------------------------------------------------------------------------------
+// handlers, scripts, replies
+// ------------------------------------------------------------------------------------------------
+
+/// What the node does about one request.
+#[derive(Clone, Debug)]
+pub enum Reply {
+    Frame(Envelope),
+    /// never answer
+    Silent,
+    /// close the connection instead of answering
+    Close(CloseKind),
+    FrameThenClose(Envelope, CloseKind),
+    /// write only the first `bytes` bytes of the frame, then close
+    CutFrame { env: Envelope, bytes: usize, then: CloseKind },
+}
+impl Reply {
+    pub fn void() -> Reply {
+        Reply::Frame(Response::Void.into())
+    }
+    pub fn rows(cols: Vec<ColSpec>, rows: Vec<Vec<wire::Cell>>) -> Reply {
+        Reply::Frame(Response::rows(cols, rows).into())
+    }
+    pub fn error(e: ErrorBody) -> Reply {
+        Reply::Frame(Response::Error(e).into())
+    }
+    pub fn response(r: Response) -> Reply {
+        Reply::Frame(r.into())
+    }
+    pub fn envelope(&self) -> Option<&Envelope> {
+        match self {
+            Reply::Frame(e) | Reply::FrameThenClose(e, _) | Reply::CutFrame { env: e, .. } => Some(e),
+            _ => None,
+        }
+    }
+}
+impl From<Response> for Reply {
+    fn from(r: Response) -> Self {
+        Reply::Frame(r.into())
+    }
+}
+
+/// Context handed to handlers. The cluster's state lock is NOT held while a handler runs, so a handler may
+/// call any `MockCluster` method.
+pub struct ReqCtx<'a> {
+    pub cluster: &'a MockCluster,
+    pub node: usize,
+    pub conn: u64,
+    pub shard: Option<u16>,
+    pub stream: i16,
+    pub request: &'a Request,
+    pub entry: &'a Arc<LogEntry>,
+    /// acknowledged keyspace of the connection
+    pub keyspace: Option<String>,
+    /// QUERY/PREPARE text or the text registered for the EXECUTE's id on this node
+    pub statement: Option<String>,
+    /// SCYLLA_USE_METADATA_ID negotiated on this connection
+    pub metadata_id: bool,
+    /// LWT mark negotiated on this connection
+    pub lwt_mark: Option<u32>,
+}
+impl ReqCtx<'_> {
+    pub fn opcode(&self) -> Opcode {
+        self.entry.opcode().unwrap()
+    }
+    pub fn params(&self) -> Option<&wire::QueryParams> {
+        self.request.params()
+    }
+    pub fn is_stmt(&self, prefix: &str) -> bool {
+        self.statement.as_deref().map(|s| s.starts_with(prefix)).unwrap_or(false)
+    }
+}
+
+/// Returns None to pass the request on (next handler, then scripts, then built-ins, then the fallback error).
+pub type Handler = Arc<dyn Fn(&ReqCtx) -> Option<Reply> + Send + Sync>;
+
+/// A scripted user statement: PREPARE of `text` answers with the metadata given here, QUERY/EXECUTE call `reply`.
+#[derive(Clone)]
+pub struct Script {
+    pub text: String,
+    /// match statements that START WITH `text` instead of equal to it
+    pub prefix: bool,
+    pub bind_cols: Vec<ColSpec>,
+    pub pk_indexes: Vec<u16>,
+    pub result_cols: Vec<ColSpec>,
+    /// set the negotiated LWT mark in the PREPARED flags
+    pub lwt: bool,
+    /// None = all nodes
+    pub nodes: Option<Vec<usize>>,
+    pub reply: Arc<dyn Fn(&ReqCtx) -> Reply + Send + Sync>,
+}
+impl Script {
+    /// Statement answered with Void (an INSERT/UPDATE).
+    pub fn new(text: &str) -> Script {
+        Script {
+            text: text.into(),
+            prefix: false,
+            bind_cols: Vec::new(),
+            pk_indexes: Vec::new(),
+            result_cols: Vec::new(),
+            lwt: false,
+            nodes: None,
+            reply: Arc::new(|_| Reply::void()),
+        }
+    }
+    pub fn prefix(mut self) -> Script {
+        self.prefix = true;
+        self
+    }
+    pub fn bind(mut self, cols: Vec<ColSpec>, pk_indexes: Vec<u16>) -> Script {
+        self.bind_cols = cols;
+        self.pk_indexes = pk_indexes;
+        self
+    }
+    pub fn result(mut self, cols: Vec<ColSpec>) -> Script {
+        self.result_cols = cols;
+        self
+    }
+    /// Answer every QUERY/EXECUTE with these rows (single page).
+    pub fn rows(mut self, cols: Vec<ColSpec>, rows: Vec<Vec<wire::Cell>>) -> Script {
+        self.result_cols = cols.clone();
+        self.reply = Arc::new(move |_| Reply::rows(cols.clone(), rows.clone()));
+        self
+    }
+    pub fn reply(mut self, f: impl Fn(&ReqCtx) -> Reply + Send + Sync + 'static) -> Script {
+        self.reply = Arc::new(f);
+        self
+    }
+    pub fn on_nodes(mut self, nodes: Vec<usize>) -> Script {
+        self.nodes = Some(nodes);
+        self
+    }
+    fn matches(&self, node: usize, stmt: &str) -> bool {
+        self.nodes.as_ref().map(|n| n.contains(&node)).unwrap_or(true) && if self.prefix { stmt.starts_with(&self.text) } else { stmt == self.text }
+    }
+}
+
+/// Deterministic prepared-statement id the built-in PREPARE assigns to a statement text (16 bytes).
+pub fn prepared_id(text: &str) -> Vec<u8> {
+    let a = vcore::fnv64(text.as_bytes());
+    let b = vcore::fnv64(format!("{text}#").as_bytes());
+    [a.to_be_bytes(), b.to_be_bytes()].concat()
+}
+fn metadata_id_of(cols: &[ColSpec]) -> Vec<u8> {
+    vcore::fnv64(format!("{cols:?}").as_bytes()).to_be_bytes().to_vec()
+}
+
+/// Serve `rows` in pages: `splits` = explicit page sizes (may contain 0 = empty page; must sum to rows.len()),
+/// or None = pages of the request's page size (one page if none). The paging state is `mockpg:<page index>`.
+pub fn paginate(rows: Vec<Vec<wire::Cell>>, splits: Option<&[usize]>, params: Option<&wire::QueryParams>) -> Result<(Vec<Vec<wire::Cell>>, Option<Vec<u8>>), String> {
+    let page: usize = match params.and_then(|p| p.paging_state.as_ref()) {
+        None => 0,
+        Some(ps) => std::str::from_utf8(ps).ok().and_then(|s| s.strip_prefix("mockpg:")).and_then(|s| s.parse().ok()).ok_or_else(|| format!("unknown paging state {:?}", vcore::hex(ps)))?,
+    };
+    let auto: Vec<usize>;
+    let splits: &[usize] = match splits {
+        Some(s) => s,
+        None => {
+            let ps = params.and_then(|p| p.page_size).filter(|n| *n > 0).map(|n| n as usize).unwrap_or(usize::MAX);
+            let mut v = Vec::new();
+            let mut left = rows.len();
+            while left > ps {
+                v.push(ps);
+                left -= ps;
+            }
+            v.push(left);
+            auto = v;
+            &auto
+        }
+    };
+    if page >= splits.len() {
+        return Err(format!("paging state points past the last page ({page} of {})", splits.len()));
+    }
+    let start: usize = splits[..page].iter().sum();
+    let end = (start + splits[page]).min(rows.len());
+    let next = if page + 1 < splits.len() { Some(format!("mockpg:{}", page + 1).into_bytes()) } else { None };
+    Ok((rows[start.min(rows.len())..end].to_vec(), next))
+}
+
+// ------------------------------------------------------------------------------------------------
+// gates
+// ------------------------------------------------------------------------------------------------
+
+#[derive(Clone, Debug)]
+pub enum ActionKind {
+    /// a TCP connection was accepted; nothing is read from it until released
+    Accept { peer: SocketAddr, shard_port: bool },
+    /// the node's reaction to `request` (computed at arrival) is about to be performed
+    Respond { request: Arc<LogEntry>, reply: Arc<Reply> },
+}
+/// A server-side action parked by a hold rule.
+#[derive(Clone, Debug)]
+pub struct Action {
+    pub id: u64,
+    pub node: usize,
+    pub conn: u64,
+    pub shard: Option<u16>,
+    pub kind: ActionKind,
+}
+impl Action {
+    pub fn is_accept(&self) -> bool {
+        matches!(self.kind, ActionKind::Accept { .. })
+    }
+    pub fn request(&self) -> Option<&FrameInfo> {
+        match &self.kind {
+            ActionKind::Respond { request, .. } => request.frame(),
+            _ => None,
+        }
+    }
+    pub fn request_entry(&self) -> Option<&Arc<LogEntry>> {
+        match &self.kind {
+            ActionKind::Respond { request, .. } => Some(request),
+            _ => None,
+        }
+    }
+    pub fn reply(&self) -> Option<&Reply> {
+        match &self.kind {
+            ActionKind::Respond { reply, .. } => Some(reply),
+            _ => None,
+        }
+    }
+    pub fn req_opcode(&self) -> Option<Opcode> {
+        self.request().map(|f| f.opcode)
+    }
+    pub fn statement(&self) -> Option<&str> {
+        self.request().and_then(|f| f.statement.as_deref())
+    }
+    /// the READY (or AUTHENTICATE) answer to STARTUP: releasing it completes the connection's handshake
+    /// (control connections additionally REGISTER afterwards)
+    pub fn is_startup_response(&self) -> bool {
+        self.req_opcode() == Some(Opcode::Startup)
+    }
+    /// the answer to a `USE ...` query
+    pub fn is_use_response(&self) -> bool {
+        self.statement().map(is_use).unwrap_or(false)
+    }
+}
+pub type HoldFn = Arc<dyn Fn(&Action) -> bool + Send + Sync>;
+
+enum ReleaseCmd {
+    Go,
+    Discard,
+    Replace(Reply),
+}
+struct HeldAction {
+    action: Action,
+    tx: oneshot::Sender<ReleaseCmd>,
+}
+
+// ------------------------------------------------------------------------------------------------
+// state
+// ------------------------------------------------------------------------------------------------
+
+enum WriteCmd {
+    Bytes(Vec<u8>),
+    Close { prefix: Vec<u8>, kind: CloseKind, ack: Option<oneshot::Sender<()>> },
+}
+
+/// Snapshot of a connection's server-side state.
+#[derive(Clone, Debug)]
+pub struct ConnInfo {
+    pub id: u64,
+    pub node: usize,
+    pub shard: Option<u16>,
+    pub peer: SocketAddr,
+    pub shard_port: bool,
+    /// acknowledged keyspace
+    pub keyspace: Option<String>,
+    pub startup: Option<BTreeMap<String, String>>,
+    /// READY/AUTH_SUCCESS was written
+    pub ready: bool,
+    pub registered: Vec<String>,
+    pub open: bool,
+    pub frames: u64,
+}
+struct ConnState {
+    info: ConnInfo,
+    tx: mpsc::UnboundedSender<WriteCmd>,
+}
+
+struct ListenerCtl {
+    stop: Option<oneshot::Sender<()>>,
+    handle: Option<tokio::task::JoinHandle<()>>,
+}
+
+struct NodeState {
+    spec: NodeSpec,
+    ip: Ipv4Addr,
+    host_id: Uuid,
+    rr_shard: u16,
+    /// prepared-statement cache of this node: id -> text
+    prepared: HashMap<Vec<u8>, String>,
+    listeners: Vec<ListenerCtl>,
+}
+
+struct State {
+    nodes: Vec<NodeState>,
+    keyspaces: Vec<KeyspaceSpec>,
+    log: Vec<Arc<LogEntry>>,
+    conns: BTreeMap<u64, ConnState>,
+    next_conn: u64,
+    next_id: u64,
+    holds: Vec<(u64, HoldFn)>,
+    held: Vec<HeldAction>,
+    handlers: Vec<(u64, Handler)>,
+    scripts: Vec<Script>,
+    unexpected: Vec<Arc<LogEntry>>,
+    sys_splits: HashMap<String, Vec<usize>>,
+    accept_any_keyspace: bool,
+}
+
+struct Inner {
+    st: Mutex<State>,
+    changed: Notify,
+    port: u16,
+    sa_port: u16,
+    cluster_name: String,
+}
+
+#[derive(Clone)]
+pub struct MockCluster {
+    inner: Arc<Inner>,
+}
+
+pub struct MockClusterBuilder {
+    nodes: Vec<NodeSpec>,
+    keyspaces: Vec<KeyspaceSpec>,
+    port: u16,
+    cluster_name: String,
+    accept_any_keyspace: bool,
+}
+
+impl MockClusterBuilder {
+    pub fn node(mut self, n: NodeSpec) -> Self {
+        self.nodes.push(n);
+        self
+    }
+    pub fn keyspace(mut self, k: KeyspaceSpec) -> Self {
+        self.keyspaces.push(k);
+        self
+    }
+    /// CQL port every node listens on (default 9042); the shard-aware port is this + 10000.
+    pub fn port(mut self, p: u16) -> Self {
+        self.port = p;
+        self
+    }
+    pub fn cluster_name(mut self, n: &str) -> Self {
+        self.cluster_name = n.into();
+        self
+    }
+    /// `USE x` succeeds for every syntactically plausible x, not only for configured keyspaces.
+    pub fn accept_any_keyspace(mut self, yes: bool) -> Self {
+        self.accept_any_keyspace = yes;
+        self
+    }
+    pub async fn build(self) -> Result<MockCluster, String> {
+        let c = MockCluster {
+            inner: Arc::new(Inner {
+                st: Mutex::new(State {
+                    nodes: Vec::new(),
+                    keyspaces: self.keyspaces,
+                    log: Vec::new(),
+                    conns: BTreeMap::new(),
+                    next_conn: 0,
+                    next_id: 1,
+                    holds: Vec::new(),
+                    held: Vec::new(),
+                    handlers: Vec::new(),
+                    scripts: Vec::new(),
+                    unexpected: Vec::new(),
+                    sys_splits: HashMap::new(),
+                    accept_any_keyspace: self.accept_any_keyspace,
+                }),
+                changed: Notify::new(),
+                port: self.port,
+                sa_port: self.port.wrapping_add(SHARD_AWARE_PORT_OFFSET),
+                cluster_name: self.cluster_name,
+            }),
+        };
+        for n in self.nodes {
+            c.add_node(n).await?;
+        }
+        Ok(c)
+    }
+}
+
+impl MockCluster {
+    pub fn builder() -> MockClusterBuilder {
+        MockClusterBuilder { nodes: Vec::new(), keyspaces: Vec::new(), port: DEFAULT_PORT, cluster_name: "mockcluster".into(), accept_any_keyspace: false }
+    }
+
+    fn lock(&self) -> std::sync::MutexGuard<'_, State> {
+        self.inner.st.lock().unwrap_or_else(|e| e.into_inner())
+    }
+    fn notify(&self) {
+        self.inner.changed.notify_waiters();
+    }
+
+    // ---------------------------------------------------------------------------------------- topology
+
+    /// Add a node (also at run time). Binds its listeners unless `spec.listening` is false. Returns its index.
+    pub async fn add_node(&self, spec: NodeSpec) -> Result<usize, String> {
+        let want_listen = spec.listening;
+        let mut attempts = 0;
+        let (ip, bound) = loop {
+            let ip = spec.addr.unwrap_or_else(alloc_ip);
+            if !want_listen {
+                break (ip, Vec::new());
+            }
+            match self.bind_listeners(ip, &spec).await {
+                Ok(l) => break (ip, l),
+                Err(e) if spec.addr.is_none() && attempts < 2000 => {
+                    attempts += 1;
+                    let _ = e;
+                    continue;
+                }
+                Err(e) => return Err(format!("mock node cannot bind {ip}: {e}")),
+            }
+        };
+        let index = {
+            let mut st = self.lock();
+            let index = st.nodes.len();
+            let host_id = spec.host_id.unwrap_or_else(|| Uuid::from_u128(0x1000_0000_0000_4000_8000_0000_0000_0000u128 + (u32::from(ip) as u128)));
+            st.nodes.push(NodeState { spec, ip, host_id, rr_shard: 0, prepared: HashMap::new(), listeners: Vec::new() });
+            index
+        };
+        let ctls: Vec<ListenerCtl> = bound.into_iter().map(|(l, sp)| self.spawn_listener(index, l, sp)).collect();
+        self.lock().nodes[index].listeners = ctls;
+        Ok(index)
+    }
+
+    async fn bind_listeners(&self, ip: Ipv4Addr, spec: &NodeSpec) -> Result<Vec<(TcpListener, bool)>, String> {
+        let mut v = Vec::new();
+        let l = TcpListener::bind(SocketAddr::new(ip.into(), self.inner.port)).await.map_err(|e| e.to_string())?;
+        v.push((l, false));
+        if spec.shards.is_some() && spec.shard_aware_port {
+            let l = TcpListener::bind(SocketAddr::new(ip.into(), self.inner.sa_port)).await.map_err(|e| e.to_string())?;
+            v.push((l, true));
+        }
+        Ok(v)
+    }
+
+    fn spawn_listener(&self, node: usize, l: TcpListener, shard_port: bool) -> ListenerCtl {
+        let (stop_tx, mut stop_rx) = oneshot::channel::<()>();
+        let me = self.clone();
+        let handle = tokio::spawn(async move {
+            loop {
+                tokio::select! {
+                    biased;
+                    _ = &mut stop_rx => break,
+                    r = l.accept() => match r {
+                        Ok((stream, peer)) => {
+                            let me2 = me.clone();
+                            tokio::spawn(async move { me2.run_conn(node, stream, peer, shard_port).await });
+                        }
+                        Err(_) => tokio::task::yield_now().await,
+                    }
+                }
+            }
+            drop(l);
+        });
+        ListenerCtl { stop: Some(stop_tx), handle: Some(handle) }
+    }
+
+    /// Close the node's listening sockets: new connection attempts are refused. Returns when they are closed.
+    pub async fn stop_listening(&self, node: usize) {
+        let ctls: Vec<ListenerCtl> = std::mem::take(&mut self.lock().nodes[node].listeners);
+        for mut c in ctls {
+            if let Some(s) = c.stop.take() {
+                let _ = s.send(());
+            }
+            if let Some(h) = c.handle.take() {
+                let _ = h.await;
+            }
+        }
+    }
+    pub async fn start_listening(&self, node: usize) -> Result<(), String> {
+        self.stop_listening(node).await;
+        let (ip, spec) = {
+            let st = self.lock();
+            (st.nodes[node].ip, st.nodes[node].spec.clone())
+        };
+        let bound = self.bind_listeners(ip, &spec).await?;
+        let ctls: Vec<ListenerCtl> = bound.into_iter().map(|(l, sp)| self.spawn_listener(node, l, sp)).collect();
+        self.lock().nodes[node].listeners = ctls;
+        Ok(())
+    }
+    /// Stop listening and reset every connection of the node.
+    pub async fn kill_node(&self, node: usize) {
+        self.stop_listening(node).await;
+        let ids: Vec<u64> = self.lock().conns.values().filter(|c| c.info.node == node && c.info.open).map(|c| c.info.id).collect();
+        for id in ids {
+            self.close_conn(id, CloseKind::Rst).await;
+        }
+    }
+    /// Show/hide the node in system.local/system.peers.
+    pub fn set_in_ring(&self, node: usize, yes: bool) {
+        self.lock().nodes[node].spec.in_ring = yes;
+    }
+    pub fn set_tokens(&self, node: usize, tokens: Vec<i64>) {
+        self.lock().nodes[node].spec.tokens = tokens;
+    }
+    pub fn set_keyspaces(&self, ks: Vec<KeyspaceSpec>) {
+        self.lock().keyspaces = ks;
+    }
+    /// Serve a system table (e.g. "system.peers") in these page sizes (must sum to its row count).
+    pub fn set_system_page_splits(&self, table: &str, splits: Option<Vec<usize>>) {
+        let mut st = self.lock();
+        match splits {
+            Some(s) => {
+                st.sys_splits.insert(table.to_string(), s);
+            }
+            None => {
+                st.sys_splits.remove(table);
+            }
+        }
+    }
+
+    pub fn port(&self) -> u16 {
+        self.inner.port
+    }
+    pub fn shard_aware_port(&self) -> u16 {
+        self.inner.sa_port
+    }
+    pub fn node_count(&self) -> usize {
+        self.lock().nodes.len()
+    }
+    pub fn ip(&self, node: usize) -> Ipv4Addr {
+        self.lock().nodes[node].ip
+    }
+    pub fn addr(&self, node: usize) -> SocketAddr {
+        SocketAddr::new(self.ip(node).into(), self.inner.port)
+    }
+    /// "ip:port" of a node, for `SessionBuilder::known_node`.
+    pub fn contact_point(&self, node: usize) -> String {
+        self.addr(node).to_string()
+    }
+    pub fn host_id(&self, node: usize) -> Uuid {
+        self.lock().nodes[node].host_id
+    }
+    pub fn node_of_ip(&self, ip: IpAddr) -> Option<usize> {
+        self.lock().nodes.iter().position(|n| IpAddr::from(n.ip) == ip)
+    }
+    pub fn node_of_host_id(&self, id: Uuid) -> Option<usize> {
+        self.lock().nodes.iter().position(|n| n.host_id == id)
+    }
+    pub fn node_views(&self) -> Vec<NodeView> {
+        Self::views(&self.lock())
+    }
+    fn views(st: &State) -> Vec<NodeView> {
+        st.nodes
+            .iter()
+            .enumerate()
+            .map(|(i, n)| NodeView {
+                index: i,
+                ip: n.ip,
+                host_id: n.host_id,
+                dc: n.spec.dc.clone(),
+                rack: n.spec.rack.clone(),
+                tokens: n.spec.tokens.clone(),
+                in_ring: n.spec.in_ring,
+                null_host_id: n.spec.null_host_id,
+            })
+            .collect()
+    }
+
+    // ---------------------------------------------------------------------------------------- handlers
+
+    /// Install a handler in FRONT of the existing ones. Returns an id for `remove_handler`.
+    pub fn handle(&self, h: impl Fn(&ReqCtx) -> Option<Reply> + Send + Sync + 'static) -> u64 {
+        let mut st = self.lock();
+        let id = st.next_id;
+        st.next_id += 1;
+        st.handlers.insert(0, (id, Arc::new(h)));
+        id
+    }
+    pub fn remove_handler(&self, id: u64) {
+        self.lock().handlers.retain(|(i, _)| *i != id);
+    }
+    /// Register a scripted statement (later registrations win).
+    pub fn script(&self, s: Script) {
+        self.lock().scripts.insert(0, s);
+    }
+    pub fn clear_scripts(&self) {
+        self.lock().scripts.clear();
+    }
+    /// Forget prepared statements of a node (all, or one id): the next EXECUTE gets UNPREPARED.
+    pub fn evict_prepared(&self, node: usize, id: Option<&[u8]>) {
+        let mut st = self.lock();
+        match id {
+            Some(id) => {
+                st.nodes[node].prepared.remove(id);
+            }
+            None => st.nodes[node].prepared.clear(),
+        }
+    }
+    pub fn prepared_text(&self, node: usize, id: &[u8]) -> Option<String> {
+        self.lock().nodes[node].prepared.get(id).cloned()
+    }
+    /// Teach a node an id -> text mapping (for handlers that answer PREPARE themselves).
+    pub fn register_prepared(&self, node: usize, id: &[u8], text: &str) {
+        self.lock().nodes[node].prepared.insert(id.to_vec(), text.to_string());
+    }
+    /// Frames that fell through to the fallback error (unscripted statements etc.).
+    pub fn unexpected(&self) -> Vec<Arc<LogEntry>> {
+        self.lock().unexpected.clone()
+    }
+
+    // ---------------------------------------------------------------------------------------- log
+
+    pub fn log(&self) -> Vec<Arc<LogEntry>> {
+        self.lock().log.clone()
+    }
+    pub fn log_len(&self) -> u64 {
+        self.lock().log.len() as u64
+    }
+    /// Entries with seq >= from.
+    pub fn log_since(&self, from: u64) -> Vec<Arc<LogEntry>> {
+        let st = self.lock();
+        st.log[(from as usize).min(st.log.len())..].to_vec()
+    }
+    /// All request frames.
+    pub fn frames(&self) -> Vec<Arc<LogEntry>> {
+        self.lock().log.iter().filter(|e| e.frame().is_some()).cloned().collect()
+    }
+    pub fn dump_log(&self) -> String {
+        self.lock().log.iter().map(|e| e.describe()).collect::<Vec<_>>().join("\n")
+    }
+    pub fn conns(&self) -> Vec<ConnInfo> {
+        self.lock().conns.values().map(|c| c.info.clone()).collect()
+    }
+    pub fn conn(&self, id: u64) -> Option<ConnInfo> {
+        self.lock().conns.get(&id).map(|c| c.info.clone())
+    }
+    pub fn open_conns(&self, node: Option<usize>) -> Vec<ConnInfo> {
+        self.lock().conns.values().filter(|c| c.info.open && node.map(|n| c.info.node == n).unwrap_or(true)).map(|c| c.info.clone()).collect()
+    }
+
+    async fn wait_state<T>(&self, what: &str, timeout: Duration, mut f: impl FnMut(&State) -> Option<T>) -> Result<T, String> {
+        let deadline = Instant::now() + timeout;
+        loop {
+            let notified = self.inner.changed.notified();
+            tokio::pin!(notified);
+            notified.as_mut().enable();
+            if let Some(t) = f(&self.lock()) {
+                return Ok(t);
+            }
+            if tokio::time::timeout_at(deadline, notified).await.is_err() {
+                if let Some(t) = f(&self.lock()) {
+                    return Ok(t);
+                }
+                return Err(format!("mock: deadline ({timeout:?}) passed waiting for: {what}"));
+            }
+        }
+    }
+
+    /// Wait (condition, not sleep) until `f(log)` returns Some. `what` names the condition in the timeout error.
+    pub async fn wait_for<T>(&self, what: &str, timeout: Duration, mut f: impl FnMut(&[Arc<LogEntry>]) -> Option<T>) -> Result<T, String> {
+        self.wait_state(what, timeout, |st| f(&st.log)).await
+    }
+    /// Wait for the first log entry with seq >= from satisfying `pred`.
+    pub async fn wait_entry(&self, what: &str, from: u64, pred: impl Fn(&LogEntry) -> bool) -> Result<Arc<LogEntry>, String> {
+        self.wait_state(what, DEADLINE, |st| st.log.iter().skip(from as usize).find(|e| pred(e)).cloned()).await
+    }
+    /// Wait until at least `n` entries with seq >= from satisfy `pred`; returns them.
+    pub async fn wait_count(&self, what: &str, from: u64, n: usize, pred: impl Fn(&LogEntry) -> bool) -> Result<Vec<Arc<LogEntry>>, String> {
+        self.wait_state(what, DEADLINE, |st| {
+            let v: Vec<_> = st.log.iter().skip(from as usize).filter(|e| pred(e)).cloned().collect();
+            if v.len() >= n { Some(v) } else { None }
+        })
+        .await
+    }
+    /// Wait until a predicate over the connection table holds (e.g. "node 1 has 2 ready connections").
+    pub async fn wait_conns<T>(&self, what: &str, timeout: Duration, mut f: impl FnMut(&[ConnInfo]) -> Option<T>) -> Result<T, String> {
+        self.wait_state(what, timeout, |st| {
+            let v: Vec<ConnInfo> = st.conns.values().map(|c| c.info.clone()).collect();
+            f(&v)
+        })
+        .await
+    }
+    /// Settle window: returns once no log entry was appended for `window` (wall clock; for expected-ABSENT events only).
+    pub async fn quiesce(&self, window: Duration) {
+        loop {
+            let n = self.log_len();
+            let notified = self.inner.changed.notified();
+            tokio::pin!(notified);
+            notified.as_mut().enable();
+            if self.log_len() != n {
+                continue;
+            }
+            if tokio::time::timeout(window, notified).await.is_err() && self.log_len() == n {
+                return;
+            }
+        }
+    }
+
+    // ---------------------------------------------------------------------------------------- gates
+
+    /// From now on park every server-side action matching `pred` until released. Returns the rule id.
+    pub fn hold(&self, pred: impl Fn(&Action) -> bool + Send + Sync + 'static) -> u64 {
+        let mut st = self.lock();
+        let id = st.next_id;
+        st.next_id += 1;
+        st.holds.push((id, Arc::new(pred)));
+        id
+    }
+    /// Remove a hold rule (already parked actions stay parked until released).
+    pub fn unhold(&self, rule: u64) {
+        self.lock().holds.retain(|(i, _)| *i != rule);
+    }
+    pub fn unhold_all(&self) {
+        self.lock().holds.clear();
+    }
+    /// Currently parked actions, in the order they were parked.
+    pub fn held(&self) -> Vec<Action> {
+        self.lock().held.iter().map(|h| h.action.clone()).collect()
+    }
+    /// Wait until a parked action satisfies `pred` (first such, in parking order).
+    pub async fn wait_held(&self, what: &str, pred: impl Fn(&Action) -> bool) -> Result<Action, String> {
+        self.wait_state(what, DEADLINE, |st| st.held.iter().map(|h| &h.action).find(|a| pred(a)).cloned()).await
+    }
+    /// Wait until at least n parked actions satisfy `pred`.
+    pub async fn wait_held_count(&self, what: &str, n: usize, pred: impl Fn(&Action) -> bool) -> Result<Vec<Action>, String> {
+        self.wait_state(what, DEADLINE, |st| {
+            let v: Vec<Action> = st.held.iter().map(|h| &h.action).filter(|a| pred(a)).cloned().collect();
+            if v.len() >= n { Some(v) } else { None }
+        })
+        .await
+    }
+    fn take_held(&self, action_id: u64) -> Option<HeldAction> {
+        let mut st = self.lock();
+        let i = st.held.iter().position(|h| h.action.id == action_id)?;
+        Some(st.held.remove(i))
+    }
+    /// Perform a parked action now. False if it is not parked (any more).
+    pub fn release(&self, action_id: u64) -> bool {
+        let r = self.take_held(action_id).map(|h| h.tx.send(ReleaseCmd::Go).is_ok()).unwrap_or(false);
+        self.notify();
+        r
+    }
+    /// Perform a different reaction instead of the parked one.
+    pub fn release_with(&self, action_id: u64, reply: Reply) -> bool {
+        let r = self.take_held(action_id).map(|h| h.tx.send(ReleaseCmd::Replace(reply)).is_ok()).unwrap_or(false);
+        self.notify();
+        r
+    }
+    /// Never perform the parked action (a held response is never sent; a held accepted connection is reset).
+    pub fn discard(&self, action_id: u64) -> bool {
+        let r = self.take_held(action_id).map(|h| h.tx.send(ReleaseCmd::Discard).is_ok()).unwrap_or(false);
+        self.notify();
+        r
+    }
+    /// Release everything currently parked (in parking order). Returns how many.
+    pub fn release_all(&self) -> usize {
+        let held: Vec<HeldAction> = std::mem::take(&mut self.lock().held);
+        let n = held.len();
+        for h in held {
+            let _ = h.tx.send(ReleaseCmd::Go);
+        }
+        self.notify();
+        n
+    }
+
+    fn gate(&self, node: usize, conn: u64, shard: Option<u16>, kind: ActionKind) -> Option<oneshot::Receiver<ReleaseCmd>> {
+        // predicates run without the state lock (they may call cluster methods)
+        let rules: Vec<(u64, HoldFn)> = self.lock().holds.clone();
+        if rules.is_empty() {
+            return None;
+        }
+        let action = Action { id: 0, node, conn, shard, kind };
+        let matched = rules.iter().find(|(_, f)| f(&action)).map(|(i, _)| *i)?;
+        let rx = {
+            let mut st = self.lock();
+            if !st.holds.iter().any(|(i, _)| *i == matched) {
+                return None; // rule removed meanwhile
+            }
+            let id = st.next_id;
+            st.next_id += 1;
+            let (tx, rx) = oneshot::channel();
+            st.held.push(HeldAction { action: Action { id, ..action }, tx });
+            rx
+        };
+        self.notify();
+        Some(rx)
+    }
+
+    // ---------------------------------------------------------------------------------------- faults / events
+
+    /// Close a connection from the server side (FIN, or RST via SO_LINGER 0). Returns when the socket is closed;
+    /// false if the connection was already gone.
+    pub async fn close_conn(&self, conn: u64, kind: CloseKind) -> bool {
+        let (tx, rx) = oneshot::channel();
+        let sent = {
+            let st = self.lock();
+            match st.conns.get(&conn) {
+                Some(c) if c.info.open => c.tx.send(WriteCmd::Close { prefix: Vec::new(), kind, ack: Some(tx) }).is_ok(),
+                _ => false,
+            }
+        };
+        sent && rx.await.is_ok()
+    }
+    /// Push an event to every open connection of `node` that REGISTERed for its type. Returns how many got it.
+    pub fn push_event(&self, node: usize, event: Event) -> usize {
+        let frame = Envelope::from(Response::Event(event.clone())).encode_frame(-1);
+        let mut n = 0;
+        {
+            let mut st = self.lock();
+            let targets: Vec<(u64, Option<u16>)> = st
+                .conns
+                .values()
+                .filter(|c| c.info.open && c.info.node == node && c.info.registered.iter().any(|t| t == event.kind()))
+                .map(|c| (c.info.id, c.info.shard))
+                .collect();
+            for (id, shard) in targets {
+                if st.conns[&id].tx.send(WriteCmd::Bytes(frame.clone())).is_ok() {
+                    Self::push_log(&mut st, node, id, shard, LogKind::EventPushed { event: event.clone() });
+                    n += 1;
+                }
+            }
+        }
+        self.notify();
+        n
+    }
+    /// Stop all listeners and reset every connection (no TIME_WAIT is left behind). Call before dropping the Session.
+    pub async fn shutdown(&self) {
+        self.unhold_all();
+        let held: Vec<HeldAction> = std::mem::take(&mut self.lock().held);
+        for h in held {
+            let _ = h.tx.send(ReleaseCmd::Discard);
+        }
+        let n = self.node_count();
+        for i in 0..n {
+            self.kill_node(i).await;
+        }
+    }
+
+    // ---------------------------------------------------------------------------------------- connection task
+
+    fn push_log(st: &mut State, node: usize, conn: u64, shard: Option<u16>, kind: LogKind) -> Arc<LogEntry> {
+        let e = Arc::new(LogEntry { seq: st.log.len() as u64, node, conn, shard, kind });
+        st.log.push(e.clone());
+        e
+    }
+
+    async fn run_conn(&self, node: usize, mut stream: TcpStream, peer: SocketAddr, shard_port: bool) {
+        let _ = stream.set_nodelay(true);
+        let (tx, mut rx) = mpsc::unbounded_channel::<WriteCmd>();
+        let (conn, shard) = {
+            let mut st = self.lock();
+            let id = st.next_conn;
+            st.next_conn += 1;
+            let ns = &mut st.nodes[node];
+            let shard = ns.spec.shards.map(|(nr, _)| {
+                if shard_port {
+                    peer.port() % nr
+                } else {
+                    match ns.spec.plain_port_shard {
+                        PlainPortShard::Fixed(s) => s % nr,
+                        PlainPortShard::RoundRobin => {
+                            let s = ns.rr_shard % nr;
+                            ns.rr_shard = (ns.rr_shard + 1) % nr;
+                            s
+                        }
+                    }
+                }
+            });
+            st.conns.insert(
+                id,
+                ConnState {
+                    info: ConnInfo { id, node, shard, peer, shard_port, keyspace: None, startup: None, ready: false, registered: Vec::new(), open: true, frames: 0 },
+                    tx,
+                },
+            );
+            Self::push_log(&mut st, node, id, shard, LogKind::Open { peer, shard_port });
+            (id, shard)
+        };
+        self.notify();
+
+        let mut closed_by = None;
+        if let Some(g) = self.gate(node, conn, shard, ActionKind::Accept { peer, shard_port }) {
+            match g.await {
+                Ok(ReleaseCmd::Go) | Ok(ReleaseCmd::Replace(_)) => {}
+                Ok(ReleaseCmd::Discard) | Err(_) => closed_by = Some(ClosedBy::Server(CloseKind::Rst)),
+            }
+        }
+        let mut buf = BytesMut::with_capacity(16 * 1024);
+        while closed_by.is_none() {
+            tokio::select! {
+                biased;
+                cmd = rx.recv() => match cmd {
+                    Some(WriteCmd::Bytes(b)) => {
+                        if stream.write_all(&b).await.is_err() {
+                            closed_by = Some(ClosedBy::ReadError);
+                        }
+                    }
+                    Some(WriteCmd::Close { prefix, kind, ack }) => {
+                        if !prefix.is_empty() {
+                            let _ = stream.write_all(&prefix).await;
+                            let _ = stream.flush().await;
+                        }
+                        closed_by = Some(ClosedBy::Server(kind));
+                        self.finish_conn(node, conn, shard, stream, closed_by.unwrap());
+                        if let Some(a) = ack {
+                            let _ = a.send(());
+                        }
+                        return;
+                    }
+                    None => closed_by = Some(ClosedBy::ReadError),
+                },
+                r = stream.read_buf(&mut buf) => match r {
+                    Ok(0) => closed_by = Some(ClosedBy::Client),
+                    Err(_) => closed_by = Some(ClosedBy::ReadError),
+                    Ok(_) => {
+                        loop {
+                            if buf.len() < wire::HEADER_LEN {
+                                break;
+                            }
+                            let h = wire::Header::parse(buf[..wire::HEADER_LEN].try_into().unwrap());
+                            let total = wire::HEADER_LEN + h.length as usize;
+                            if buf.len() < total {
+                                buf.reserve(total - buf.len());
+                                break;
+                            }
+                            let frame = buf.split_to(total);
+                            self.on_frame(node, conn, shard, h, &frame[wire::HEADER_LEN..]);
+                        }
+                    }
+                },
+            }
+        }
+        self.finish_conn(node, conn, shard, stream, closed_by.unwrap());
+    }
+
+    fn finish_conn(&self, node: usize, conn: u64, shard: Option<u16>, stream: TcpStream, by: ClosedBy) {
+        if by == ClosedBy::Server(CloseKind::Rst) {
+            let _ = socket2::SockRef::from(&stream).set_linger(Some(Duration::ZERO));
+        }
+        drop(stream);
+        {
+            let mut st = self.lock();
+            if let Some(c) = st.conns.get_mut(&conn) {
+                c.info.open = false;
+            }
+            Self::push_log(&mut st, node, conn, shard, LogKind::Closed { by });
+        }
+        self.notify();
+    }
+
+    fn on_frame(&self, node: usize, conn: u64, shard: Option<u16>, h: wire::Header, body: &[u8]) {
+        // 1. parse + log
+        let (entry, handlers, keyspace, metadata_id, lwt_mark, statement) = {
+            let mut st = self.lock();
+            let c = &st.conns[&conn];
+            let startup = c.info.startup.clone().unwrap_or_default();
+            let metadata_id = startup.contains_key("SCYLLA_USE_METADATA_ID");
+            let lwt_mark = startup.get("SCYLLA_LWT_ADD_METADATA_MARK").and_then(|v| v.strip_prefix("LWT_OPTIMIZATION_META_BIT_MASK=")).and_then(|v| v.parse::<u32>().ok());
+            let keyspace = c.info.keyspace.clone();
+            let control = !c.info.registered.is_empty();
+            let (request, _payload) = wire::parse_request(h.opcode, h.flags, body, ParseCtx { metadata_id });
+            let statement = match &request {
+                Request::Query { text, .. } | Request::Prepare { text } => Some(text.clone()),
+                Request::Execute { id, .. } => st.nodes[node].prepared.get(id).cloned(),
+                _ => None,
+            };
+            // arrival side effects
+            match &request {
+                Request::Startup { options } => st.conns.get_mut(&conn).unwrap().info.startup = Some(options.clone()),
+                Request::Register { events } => st.conns.get_mut(&conn).unwrap().info.registered = events.clone(),
+                _ => {}
+            }
+            st.conns.get_mut(&conn).unwrap().info.frames += 1;
+            let info = FrameInfo {
+                stream: h.stream,
+                opcode: Opcode::from_u8(h.opcode),
+                flags: h.flags,
+                request,
+                body: body.to_vec(),
+                keyspace: keyspace.clone(),
+                statement: statement.clone(),
+                control,
+            };
+            let entry = Self::push_log(&mut st, node, conn, shard, LogKind::Frame(info));
+            let handlers: Vec<Handler> = st.handlers.iter().map(|(_, h)| h.clone()).collect();
+            (entry, handlers, keyspace, metadata_id, lwt_mark, statement)
+        };
+        self.notify();
+        // 2. decide the reaction (no lock held)
+        let request = &entry.frame().unwrap().request;
+        let ctx = ReqCtx { cluster: self, node, conn, shard, stream: h.stream, request, entry: &entry, keyspace, statement, metadata_id, lwt_mark };
+        let mut reply = None;
+        for hd in &handlers {
+            if let Some(r) = hd(&ctx) {
+                reply = Some(r);
+                break;
+            }
+        }
+        let reply = reply.unwrap_or_else(|| self.builtin(&ctx));
+        // 3. gate, then perform
+        let reply = Arc::new(reply);
+        match self.gate(node, conn, shard, ActionKind::Respond { request: entry.clone(), reply: reply.clone() }) {
+            None => self.perform(node, conn, shard, &entry, (*reply).clone()),
+            Some(rx) => {
+                let me = self.clone();
+                let entry = entry.clone();
+                tokio::spawn(async move {
+                    match rx.await {
+                        Ok(ReleaseCmd::Go) => me.perform(node, conn, shard, &entry, (*reply).clone()),
+                        Ok(ReleaseCmd::Replace(r)) => me.perform(node, conn, shard, &entry, r),
+                        Ok(ReleaseCmd::Discard) | Err(_) => {}
+                    }
+                });
+            }
+        }
+    }
+
+    fn perform(&self, node: usize, conn: u64, shard: Option<u16>, req: &Arc<LogEntry>, reply: Reply) {
+        let f = req.frame().unwrap();
+        let stream = f.stream;
+        let fix = |mut env: Envelope| -> Envelope {
+            if let Response::Rows(r) = &mut env.response {
+                if r.honor_skip_metadata && f.request.params().map(|p| p.skip_metadata).unwrap_or(false) && r.metadata.new_metadata_id.is_none() {
+                    r.metadata.no_metadata = true;
+                }
+            }
+            env
+        };
+        {
+            let mut st = self.lock();
+            let Some(c) = st.conns.get_mut(&conn) else { return };
+            if !c.info.open {
+                return;
+            }
+            let (env, cmd) = match reply {
+                Reply::Silent => return,
+                Reply::Close(kind) => (None, WriteCmd::Close { prefix: Vec::new(), kind, ack: None }),
+                Reply::Frame(env) => {
+                    let env = fix(env);
+                    let b = env.encode_frame(stream);
+                    (Some(env), WriteCmd::Bytes(b))
+                }
+                Reply::FrameThenClose(env, kind) => {
+                    let env = fix(env);
+                    let b = env.encode_frame(stream);
+                    (Some(env), WriteCmd::Close { prefix: b, kind, ack: None })
+                }
+                Reply::CutFrame { env, bytes, then } => {
+                    let env = fix(env);
+                    let mut b = env.encode_frame(stream);
+                    b.truncate(bytes.min(b.len()));
+                    (None, WriteCmd::Close { prefix: b, kind: then, ack: None })
+                }
+            };
+            if let Some(env) = &env {
+                // acknowledged state changes BEFORE the bytes leave, so that no later frame of the client can
+                // overtake the bookkeeping
+                match &env.response {
+                    Response::SetKeyspace(k) => c.info.keyspace = Some(k.clone()),
+                    Response::Ready if f.opcode == Opcode::Startup => c.info.ready = true,
+                    Response::AuthSuccess(_) => c.info.ready = true,
+                    _ => {}
+                }
+            }
+            let _ = c.tx.send(cmd);
+            if let Some(env) = env {
+                Self::push_log(&mut st, node, conn, shard, LogKind::Sent { stream, request_seq: Some(req.seq), response: Arc::new(env) });
+            }
+        }
+        self.notify();
+    }
+
+    // ---------------------------------------------------------------------------------------- built-in behaviour
+
+    fn supported(&self, node: usize, shard: Option<u16>) -> Response {
+        let st = self.lock();
+        let spec = &st.nodes[node].spec;
+        let mut m: Vec<(String, Vec<String>)> = vec![("CQL_VERSION".into(), vec!["3.4.5".into()]), ("COMPRESSION".into(), vec![])];
+        if let Some((nr, msb)) = spec.shards {
+            m.push(("SCYLLA_SHARD".into(), vec![shard.unwrap_or(0).to_string()]));
+            m.push(("SCYLLA_NR_SHARDS".into(), vec![nr.to_string()]));
+            m.push(("SCYLLA_SHARDING_IGNORE_MSB".into(), vec![msb.to_string()]));
+            m.push(("SCYLLA_PARTITIONER".into(), vec!["org.apache.cassandra.dht.Murmur3Partitioner".into()]));
+            m.push(("SCYLLA_SHARDING_ALGORITHM".into(), vec!["biased-token-round-robin".into()]));
+            if spec.shard_aware_port {
+                m.push(("SCYLLA_SHARD_AWARE_PORT".into(), vec![self.inner.sa_port.to_string()]));
+            }
+        }
+        if spec.tablets_v1 {
+            m.push(("TABLETS_ROUTING_V1".into(), vec!["".into()]));
+        }
+        if spec.metadata_id {
+            m.push(("SCYLLA_USE_METADATA_ID".into(), vec!["".into()]));
+        }
+        if let Some(mask) = spec.lwt_mark {
+            m.push(("SCYLLA_LWT_ADD_METADATA_MARK".into(), vec![format!("LWT_OPTIMIZATION_META_BIT_MASK={mask}")]));
+        }
+        if let Some(code) = spec.rate_limit_error {
+            m.push(("SCYLLA_RATE_LIMIT_ERROR".into(), vec![format!("ERROR_CODE={code}")]));
+        }
+        m.extend(spec.extra_supported.iter().cloned());
+        Response::Supported(m)
+    }
+
+    fn fallback(&self, ctx: &ReqCtx, why: &str) -> Reply {
+        self.lock().unexpected.push(ctx.entry.clone());
+        Reply::error(ErrorBody::server_error(&format!("mock: {why}")))
+    }
+
+    /// The reaction of the built-in node logic (handshake, USE, system tables, scripts, fallback error).
+    /// Public so that a handler can delegate: `ctx.cluster.builtin(ctx)`.
+    pub fn builtin(&self, ctx: &ReqCtx) -> Reply {
+        match ctx.request {
+            Request::Options => self.supported(ctx.node, ctx.shard).into(),
+            Request::Startup { .. } => match self.lock().nodes[ctx.node].spec.authenticator.clone() {
+                Some(class) => Response::Authenticate(class).into(),
+                None => Response::Ready.into(),
+            },
+            Request::AuthResponse { .. } => Response::AuthSuccess(None).into(),
+            Request::Register { .. } => Response::Ready.into(),
+            Request::Malformed { why, .. } => Reply::error(ErrorBody::simple(wire::errcode::PROTOCOL_ERROR, why)),
+            Request::Prepare { text } => self.builtin_prepare(ctx, text),
+            Request::Query { text, .. } => self.builtin_run(ctx, text),
+            Request::Execute { id, .. } => match ctx.statement.clone() {
+                Some(text) => self.builtin_run(ctx, &text),
+                None => Reply::error(ErrorBody::unprepared(id)),
+            },
+            Request::Batch { statements, .. } => {
+                let st = self.lock();
+                for s in statements {
+                    let text = match s {
+                        wire::BatchStmt::Query { text, .. } => Some(text.clone()),
+                        wire::BatchStmt::Prepared { id, .. } => match st.nodes[ctx.node].prepared.get(id) {
+                            Some(t) => Some(t.clone()),
+                            None => return Reply::error(ErrorBody::unprepared(id)),
+                        },
+                    };
+                    let known = text.as_deref().map(|t| st.scripts.iter().any(|sc| sc.matches(ctx.node, t))).unwrap_or(false);
+                    if !known {
+                        drop(st);
+                        return self.fallback(ctx, &format!("unscripted statement in BATCH: {text:?}"));
+                    }
+                }
+                Reply::void()
+            }
+        }
+    }
+
+    fn sys_prepare_meta(&self, ctx: &ReqCtx, text: &str) -> Option<Result<(systables::SysSelect, systables::SysTable, Vec<ColSpec>), Reply>> {
+        let sel = systables::parse_select(text)?;
+        let is_scylla = self.lock().nodes[ctx.node].spec.shards.is_some();
+        let Some(t) = systables::find_table(&sel).filter(|t| is_scylla || !t.scylla_only) else {
+            return Some(Err(Reply::error(ErrorBody::invalid(&format!("unconfigured table {}", sel.table)))));
+        };
+        match systables::select_cols(&sel, &t) {
+            Ok(cols) => Some(Ok((sel, t, cols))),
+            Err(c) => Some(Err(Reply::error(ErrorBody::invalid(&format!("Undefined column name {c}"))))),
+        }
+    }
+
+    fn builtin_prepare(&self, ctx: &ReqCtx, text: &str) -> Reply {
+        let id = prepared_id(text);
+        if let Some(r) = self.sys_prepare_meta(ctx, text) {
+            let (sel, t, cols) = match r {
+                Ok(x) => x,
+                Err(reply) => return reply,
+            };
+            let bind_cols = if sel.keyspace_filter { vec![wire::col(t.keyspace, t.table, "keyspace_name", wire::ColType::List(Box::new(wire::ColType::Text)))] } else { vec![] };
+            self.lock().nodes[ctx.node].prepared.insert(id.clone(), text.to_string());
+            return Response::Prepared(PreparedResult {
+                id,
+                result_metadata_id: ctx.metadata_id.then(|| metadata_id_of(&cols)),
+                bind_cols,
+                pk_indexes: vec![],
+                result: RowsMetadata { cols, ..Default::default() },
+                extra_flags: 0,
+            })
+            .into();
+        }
+        let script = self.lock().scripts.iter().find(|s| s.matches(ctx.node, text)).cloned();
+        match script {
+            Some(s) => {
+                self.lock().nodes[ctx.node].prepared.insert(id.clone(), text.to_string());
+                Response::Prepared(PreparedResult {
+                    id,
+                    result_metadata_id: ctx.metadata_id.then(|| metadata_id_of(&s.result_cols)),
+                    bind_cols: s.bind_cols.clone(),
+                    pk_indexes: s.pk_indexes.clone(),
+                    result: RowsMetadata { cols: s.result_cols.clone(), ..Default::default() },
+                    extra_flags: if s.lwt { ctx.lwt_mark.unwrap_or(0) as i32 } else { 0 },
+                })
+                .into()
+            }
+            None => self.fallback(ctx, &format!("PREPARE of an unscripted statement: {text:?}")),
+        }
+    }
+
+    fn builtin_run(&self, ctx: &ReqCtx, text: &str) -> Reply {
+        if is_use(text) {
+            return self.builtin_use(ctx, text);
+        }
+        if let Some(r) = self.sys_prepare_meta(ctx, text) {
+            let (sel, t, cols) = match r {
+                Ok(x) => x,
+                Err(reply) => return reply,
+            };
+            let filter: Option<Vec<String>> = if sel.keyspace_filter { ctx.params().and_then(|p| p.values.first()).and_then(systables::decode_text_list) } else { None };
+            let (rows, splits) = {
+                let st = self.lock();
+                let views = Self::views(&st);
+                let rows = systables::rows_of(&t, ctx.node, &views, &st.keyspaces, &self.inner.cluster_name, filter.as_deref());
+                (systables::project(&sel, rows), st.sys_splits.get(&format!("{}.{}", t.keyspace, t.table)).cloned())
+            };
+            return match paginate(rows, splits.as_deref(), ctx.params()) {
+                Ok((page, next)) => Response::rows_paged(cols, page, next).into(),
+                Err(e) => self.fallback(ctx, &e),
+            };
+        }
+        let script = self.lock().scripts.iter().find(|s| s.matches(ctx.node, text)).cloned();
+        match script {
+            Some(s) => (s.reply)(ctx),
+            None => self.fallback(ctx, &format!("unscripted statement: {text:?}")),
+        }
+    }
+
+    fn builtin_use(&self, _ctx: &ReqCtx, text: &str) -> Reply {
+        let arg = text.trim()[4..].trim().trim_end_matches(';').trim();
+        let name = if arg.len() >= 2 && arg.starts_with('"') && arg.ends_with('"') { arg[1..arg.len() - 1].to_string() } else { arg.to_ascii_lowercase() };
+        let st = self.lock();
+        let plausible = !name.is_empty() && name.chars().all(|c| c.is_ascii_alphanumeric() || c == '_');
+        if (st.accept_any_keyspace && plausible) || st.keyspaces.iter().any(|k| k.name == name) {
+            Response::SetKeyspace(name).into()
+        } else {
+            Reply::error(ErrorBody::invalid(&format!("Keyspace '{name}' does not exist")))
+        }
+    }
+}
